@@ -23,7 +23,8 @@ def run(prop, tier, seed):
         sets = [("chain", "ShapesChain", "DeclsT", "DeclsT", "DeclsT"), ("diam", "ShapesDiamond", "DeclsT", "RootQ", "DeclsQ")]
     sets += [("meta", "ShapesAll" if not quick else "ShapesChain", "DeclsM", "DeclsM", "DeclsM"),
              ("inst", "ShapesAll" if not quick else "ShapesChain", "DeclsI", "DeclsI", "DeclsI"),
-             ("list", "ShapesAll" if not quick else "ShapesChain", "DeclsL", "DeclsL", "DeclsL")]
+             ("list", "ShapesAll" if not quick else "ShapesChain", "DeclsL", "DeclsL", "DeclsL"),
+             ("sel", "ShapesAll" if not quick else "ShapesChain", "DeclsS", "DeclsS", "DeclsS")]
     props, gens = [], []
     for n, sh, d, r, l in sets:
         props.append({"module": M, "cfg": "C11_p%s.cfg" % n, "extra_defs": {"C11_p%s.cfg" % n: cfg(sh, d, r, l, False)}})
